@@ -261,8 +261,10 @@ def hexfile(max_records, span=SPAN, extra_kinds=()):
             return f
         env.add(builtins.open, fake_open, "builtins.open")
         env.add(os.path.realpath, lambda a, k: a[0], "os.path.realpath")
-        env.add(os.path.isfile, lambda a, k: True, "os.path.isfile")
-        env.add(os.access, lambda a, k: True, "os.access")
+        present = {"file": True, "readable": True}
+        env.add(os.path.isfile, lambda a, k: present["file"], "os.path.isfile")
+        env.add(os.path.exists, lambda a, k: present["file"], "os.path.exists")
+        env.add(os.access, lambda a, k: present["readable"], "os.access")
         if w.symbolic:
             env.add(array_mod.array, lambda a, k: ByteArray(as_items(w, a[1]) if len(a) > 1 else []),
                     "array.array")
@@ -282,6 +284,17 @@ def hexfile(max_records, span=SPAN, extra_kinds=()):
                 w.escaped(exc, "load_fw raised on the rewritten file")
             w.check(again is not None and bytes(again) == REBUILT_IMAGE,
                     "a rewritten firmware file loaded to something else than the bytes it encodes")
+            if nrec == 1 and tail == "none":
+                # a path that does not exist / is not readable: no image, no exception
+                gone = w.pick(["missing", "unreadable"], "then_the_file_is")
+                present["file" if gone == "missing" else "readable"] = False
+                n_open = len(opened)
+                try:
+                    nothing = w.call(ota.load_fw, "firmware.hex")
+                except Exception as exc:
+                    w.escaped(exc, f"load_fw raised for a {gone} file")
+                w.check(nothing is None and len(opened) == n_open,
+                        f"load_fw returned data for a {gone} file")
         if overlap:
             # two records claim the same address: the format gives the file no single meaning
             w.goal("overlap")
